@@ -7,7 +7,7 @@ CaseBox gen_case(const std::string& property, const std::string& part, const std
   cb.property = property;
   if (property == "C12") { cb.engine = "c12"; cb.c12 = gen_c12(part, tier, seed, idx); return cb; }
   if (property == "C19") { cb.engine = "c19"; cb.c19 = gen_c19(part, tier, seed, idx); return cb; }
-  if (property == "C14" && (part == "enum" || part == "random")) { cb.engine = "c14a"; cb.c14a = gen_c14a(part, tier, seed, idx); return cb; }
+  if (property == "C14" && (part == "enum" || part == "random" || part == "order")) { cb.engine = "c14a"; cb.c14a = gen_c14a(part, tier, seed, idx); return cb; }
   cb.engine = "conc";
   cb.conc = gen_conc(property, (part == "hints" || part == "cold" || part == "exit") ? part : tier, seed, idx);
   return cb;
@@ -52,6 +52,8 @@ void set_recorded_schedule(CaseBox* cb, const Outcome& o) {
       cb->c14a.steps.clear();
       for (const J& q : o.extra.a) { Step s; s.q = query_from_json(q); s.check = q.getb("check", true); s.zone = static_cast<int>(q.geti("zone")); cb->c14a.steps.push_back(s); }
       cb->c14a.explicit_steps = true;
+    } else if (o.extra.t == J::OBJ) {   // part "order": the single-zone-process fingerprints of the zones involved
+      for (auto& kv : o.extra.o) cb->c14a.want[kv.first] = kv.second.s;
     }
   } else if (cb->engine == "c12") {
     cb->c12.explicit_schedule = true;
